@@ -184,14 +184,20 @@ func (g *Gen) wellFormed(term string, t types.Type, alloc string) string {
 		ext := "true"
 		if et, ok := deref(t); ok {
 			ext = sOr(sEq(pObj(term), "0"), g.M.ixLe(g.M.ixAdd(pOff(term), g.M.IxLit(g.L.Size(et))), app("objsize", pObj(term))))
+			if g.isHeapType(et) {
+				ext = sAnd(ext, sOr(sEq(pObj(term), "0"), sAnd(sEq(app("objtype", pObj(term)), fmt.Sprint(g.typeID(et))), sEq(pOff(term), g.M.IxLit(0)))))
+			} else {
+				ext = sAnd(ext, g.notInHeapTypes(pObj(term), et))
+			}
 		}
 		return sAnd(app("<=", pObj(term), alloc), g.M.ixLe(g.M.IxLit(0), pOff(term)), g.M.ixLe(pOff(term), g.M.IxLit(1<<48)), ext)
 	case "Slice":
 		p := app("sl.ptr", term)
 		return sAnd(app("<=", pObj(p), alloc),
 			g.M.ixLe(g.M.IxLit(0), app("sl.len", term)), g.M.ixLe(app("sl.len", term), app("sl.cap", term)),
-			g.M.ixLe(g.M.IxLit(0), pOff(p)), g.M.ixLe(pOff(p), g.M.IxLit(1<<48)), g.M.ixLe(app("sl.cap", term), g.M.IxLit(1<<48)),
+			g.M.ixLe(g.M.IxLit(0), pOff(p)), g.M.ixLe(pOff(p), g.M.IxLit(1<<48)), g.M.ixLe(app("sl.cap", term), g.M.IxLit(1<<31-1)),
 			sOr(sEq(pObj(p), "0"), g.M.ixLe(g.M.ixAdd(pOff(p), g.M.ixMulC(app("sl.cap", term), g.sliceElemSize(t))), app("objsize", pObj(p)))),
+			g.notInHeapTypes(pObj(p), t.Underlying().(*types.Slice).Elem()),
 			sImp(sEq(pObj(p), "0"), sEq(app("sl.cap", term), g.M.IxLit(0))))
 	case "Iface":
 		return sAnd(app("<=", pObj(app("if.val", term)), alloc), app("<=", "0", app("if.dyn", term)),
@@ -445,4 +451,55 @@ func (g *Gen) sliceElemSize(t types.Type) int64 {
 		return g.L.Size(st.Elem())
 	}
 	return 1
+}
+
+
+// isHeapType: t is a named struct type declared "heaptype" (its values only live in objects of their own).
+func (g *Gen) isHeapType(t types.Type) bool {
+	n, ok := types.Unalias(t).(*types.Named)
+	if !ok {
+		return false
+	}
+	name := ShortName(n.String())
+	for _, h := range g.DB.HeapTypes {
+		if h == name {
+			return true
+		}
+	}
+	return false
+}
+
+
+// notInHeapTypes: a pointer to a T cannot point into an object of a heap-only type that contains no T.
+func (g *Gen) notInHeapTypes(obj string, t types.Type) string {
+	var cs []string
+	for _, h := range g.DB.HeapTypes {
+		ht := g.lookupNamed(h)
+		if ht == nil || typeContains(ht, t, 0) {
+			continue
+		}
+		cs = append(cs, sNot(sEq(app("objtype", obj), fmt.Sprint(g.typeID(ht)))))
+	}
+	return sAnd(cs...)
+}
+
+func typeContains(h, t types.Type, depth int) bool {
+	if types.Identical(h, t) || types.Identical(h.Underlying(), t.Underlying()) {
+		return true
+	}
+	if depth > 8 {
+		return true
+	}
+	switch u := h.Underlying().(type) {
+	case *types.Struct:
+		for i := 0; i < u.NumFields(); i++ {
+			if typeContains(u.Field(i).Type(), t, depth+1) {
+				return true
+			}
+		}
+	case *types.Array:
+		return typeContains(u.Elem(), t, depth+1)
+	}
+	// cells of identical representation (e.g. a bool field vs *bool) are covered by Identical on the field type
+	return false
 }
